@@ -280,7 +280,11 @@ func (wd *world) foreign(g int, f string) map[string]any {
 		case "mark":
 			pg.Spec.MarkUnschedulable = ptr.To(k%2 == 1)
 		case "backoff":
-			pg.Spec.SchedulingBackoff = ptr.To(map[int]int32{1: -1, 2: 1}[k])
+			b := int32(1) // the only supported values are -1 and 1 (Grouper!FVal)
+			if k == 1 {
+				b = -1
+			}
+			pg.Spec.SchedulingBackoff = ptr.To(b)
 		case "nodepool":
 			if pg.Labels == nil {
 				pg.Labels = map[string]string{}
